@@ -85,7 +85,7 @@ Definition match_exact (re : resyn) : option (list text) :=
           match last rest RBeginText with
           | REndText =>
               match strip_last rest with
-              | [] => Some []
+              | [] => Some [[]]                       (* /^$/ : exactly the empty value *)
               | body => match_regex (RConcat f body)
               end
           | _ => None
@@ -117,7 +117,11 @@ Definition rewrite_node (e : expr) : expr :=
         match r with
         | RegexLit p =>
             match syn p with
-            | Some re => match match_exact re with Some vals => build_eq op l vals | None => e end
+            | Some re => match match_exact re with
+                         | Some [] => e                 (* matches no value: left to the regex engine *)
+                         | Some vals => build_eq op l vals
+                         | None => e
+                         end
             | None => e
             end
         | _ => e
